@@ -40,6 +40,8 @@ N_VARIANTS = 4
 
 OBLIGATIONS = {
     "another_model_on_a_decoded_track": "a second, different model was decoded on a track that already carried the result of a first decoding",
+    "decoding_after_a_refused_decoding": "a model object decoded a track right after a request it refused (unknown observation feature) (models of <= 2 epochs)",
+    "states_as_positions": "the candidate states were positions (modes 3, 4, 5) and the decoded sequence was read through hmm_inference and through the positions of the fixes (models of <= 2 epochs)",
     "every_observation_shape": "the observation was stored as a list of one, a list of two, a tuple, a string, a nested list, and read as a 2-D and as a 3-D position from two / three features (models of <= 2 epochs)",
     "tie": ">= 2 sequences attain the maximum likelihood (> 0)",
     "zero_likelihood_optimum": "every sequence has likelihood 0",
@@ -247,6 +249,8 @@ def judge(site, case, seq, cost, cand, P, Q, best, ctx):
     idx = []
     for k in range(T):
         s = seq[k]
+        if isinstance(s, list):
+            s = tuple(s)              # the container is not part of the statement
         if not (isinstance(s, tuple) and s in cand[k]):
             ctx.violation("%s/decoded-state-is-not-a-candidate-of-its-epoch" % site, case, {"epoch": k, "state": repr(s)[:80]})
             return False
@@ -360,7 +364,99 @@ def check_model(variant, sizes, flat, ctx):
         for form in OBS_FORMS[1:]:
             _decode_and_judge("estimate/observation-stored-as-" + form, variant, sizes, P, Q, False, best, case, ctx, "none", form)
         ctx.oblige("every_observation_shape")
+        # ... and the same model object asked again after a request it had to refuse (an observation feature the track lacks)
+        _decode_and_judge("estimate/after-a-refused-decoding", variant, sizes, P, Q, False, best, case, ctx, refuse_first=True)
+        # ... and the modes in which the candidate states are positions and the decoded one is written to the fix itself
+        for mname in STATE_POSITION_MODES:
+            check_state_positions(variant, sizes, P, Q, best, mname, case, ctx)
     return nontrivial
+
+
+# ---- states given as positions (MODE_OBS_AND_STATES_AS_2D/3D_POSITIONS, MODE_STATES_AS_2D_POSITIONS): the decoded state
+# of an epoch is also written to the position of that epoch's fix.  The sequence read through hmm_inference is judged as
+# everywhere else; the positions are a second way of reading the same sequence (differential oracle): as soon as the
+# decoding moved one fix, every fix holds the state decoded for its epoch.
+STATE_POSITION_MODES = {"obs-and-states-2d": (3, ["ox", "oy"]), "obs-and-states-3d": (4, ["ox", "oy", "oz"]), "states-2d": (5, "obs")}
+
+
+def _state_pos(variant, k, a):
+    x, y = alpha.xy(variant, 1000.0 + 16.0 * k, 500.0 + 4.0 * a)
+    return (float(x), float(y), 64.0 + k + 8.0 * a)
+
+
+def _xyz(c):
+    return (float(c.getX()), float(c.getY()), float(c.getZ()))
+
+
+def check_state_positions(variant, sizes, P, Q, best, mname, case, ctx):
+    mode, obsnames = STATE_POSITION_MODES[mname]
+    T = len(sizes)
+    site = "estimate/states-as-positions/" + mname
+    where = {_state_pos(variant, k, a): (k, a) for k in range(T) for a in range(sizes[k])}
+    cand = [alpha.order(variant, [(k, a) for a in range(sizes[k])]) for k in range(T)]
+    obs_of = {}
+    for k in range(T):
+        x, y, z = _obs_xyz(variant, k)
+        obs_of[repr(("coords", x, y, z if mode == 4 else 0.0))] = k
+        obs_of[repr(obs_code(variant, k))] = k
+
+    def S(track, k):
+        return [ENUCoords(*_state_pos(variant, k, a)) for (_, a) in cand[k]]
+
+    def Pf(s, y, k, track):
+        w = where.get(_xyz(s))
+        e = obs_of.get(_obs_key(y))
+        if w is None or e is None or w[0] != e or k != e:
+            raise ModelMisuse("P queried with state %r, observation %r, epoch %r" % (s, y, k))
+        return P[e][w[1]]
+
+    def Qf(s1, s2, k, track):
+        w1, w2 = where.get(_xyz(s1)), where.get(_xyz(s2))
+        if w1 is None or w2 is None or w1[0] != k or w2[0] != k + 1:
+            raise ModelMisuse("Q queried with %r -> %r at epoch %r" % (s1, s2, k))
+        return Q[k][w1[1]][w2[1]]
+
+    t0 = alpha.t0(variant)
+    raw = []
+    track = Track()
+    for k in range(T):
+        x, y = alpha.xy(variant, k, 0)
+        raw.append((float(x), float(y), 0.0))
+        track.addObs(Obs(ENUCoords(x, y, 0.0), alpha.obstime(t0 + k)))
+    for j, name in enumerate(["ox", "oy", "oz"]):
+        track.createAnalyticalFeature(name, [_obs_xyz(variant, k)[j] for k in range(T)])
+    track.createAnalyticalFeature("obs", [obs_code(variant, k) for k in range(T)])
+    hmm = HMM(S, Qf, Pf, log=False)
+    st, r = guard(hmm.estimate, track, obsnames, mode=mode, verbose=MODE_VERBOSE_NONE)
+    ctx.count("decodings")
+    if st != "ok":
+        ctx.violation("%s/%s" % (site, "does-not-return" if st == "hang" else "raises"), case, r)
+        return
+    got = _read(track, T)
+    if got is None:
+        ctx.violation(site + "/result-not-readable", case, None)
+        return
+    seq = []
+    for s_ in got[0]:
+        try:
+            seq.append(where.get(_xyz(s_)))
+        except Exception:
+            seq.append(None)
+    if not judge(site, case, seq, got[1], cand, P, Q, best, ctx):
+        return
+    try:
+        now = [_xyz(track.getObs(k).position) for k in range(T)]
+    except Exception as e:
+        ctx.violation(site + "/positions-not-readable", case, repr(e)[:200])
+        return
+    if any(now[k] != raw[k] for k in range(T)):
+        ctx.count("decoded_states_read_through_the_positions")
+        for k in range(T):
+            if where.get(now[k]) != seq[k]:
+                ctx.violation(site + "/position-of-a-fix-is-not-the-state-decoded-for-its-epoch", case,
+                              {"epoch": k, "position": list(now[k]), "decoded_state": list(seq[k]), "raw_position": list(raw[k])})
+                return
+    ctx.oblige("states_as_positions")
 
 
 def _read(track, T):
@@ -370,9 +466,13 @@ def _read(track, T):
         return None
 
 
-def _decode_and_judge(site, variant, sizes, P, Q, log, best, case, ctx, verbose="none", form="number"):
-    """One decoding on a fresh track.  -> (hmm, track, sequence, cost) when everything the statement requires holds."""
+def _decode_and_judge(site, variant, sizes, P, Q, log, best, case, ctx, verbose="none", form="number", refuse_first=False):
+    """One decoding on a fresh track.  -> (hmm, track, sequence, cost) when everything the statement requires holds.
+    refuse_first: the same model object is first asked to decode an observation feature the track does not carry (refused)."""
     hmm, track, cand = build(variant, sizes, P, Q, log, form)
+    if refuse_first:
+        guard(hmm.estimate, track, "no_such_feature", mode=MODE_OBS_AS_SCALAR, verbose=MODE_VERBOSE_NONE)
+        ctx.oblige("decoding_after_a_refused_decoding")
     st, r = decode(hmm, track, verbose, form)
     ctx.count("decodings")
     if st != "ok":
